@@ -5,7 +5,11 @@
      (a) no binder (parameter, `let`, `for` variable) of any function or shadow block is spelled like a top-level
          constant -- so whatever a function reads as a free name cannot be captured by a local of one of its callers
          (the evaluator resolves names on ONE stack shared by all active calls: dynamic scoping);
-     (c) string literals contain no escape sequence and no NUL (the evaluator prints the source spelling).
+     (c) string literals contain no escape sequence and no NUL (the evaluator prints the source spelling);
+     (e) str_substring only on a literal string with a literal start inside it (0 <= start < length) and a literal length
+         (0 <= length < 2^32): elsewhere the evaluator yields void where the language yields the empty string (start at or past
+         the end of the string: finding c03:builtin:str_substring:start-at-or-past-the-end-is-void-in-the-evaluator); the
+         other string builtins are inside the theorem.
    The former clause (d) (first element of an array literal call-free) is gone with fix 38fa340: the evaluator no longer
    evaluates that element twice.
    Since fix 9481a65 (blocks pop their symbols) nothing is asked about names re-used inside one function: shadowing a
@@ -39,6 +43,12 @@ Fixpoint expr_plain (e : expr) : bool :=
   | EArr es => (fix go (l : list expr) : bool := match l with [] => true | a :: r => expr_plain a && go r end) es
   | EAt a i => expr_plain a && expr_plain i
   | ELen a => expr_plain a
+  | EStr1 _ a => expr_plain a
+  | EStr2 _ a b => expr_plain a && expr_plain b
+  | ESubstr (EStr s) (ENum st) (ENum ln) =>
+      (if list_eq_dec N.eq_dec (unescape s) s then true else false) &&
+      (0 <=? st)%Z && (st <? Z.of_nat (length s))%Z && (st <? str_limit)%Z && (0 <=? ln)%Z && (ln <? str_limit)%Z
+  | ESubstr _ _ _ => false
   end.
 
 Fixpoint stmt_plain (s : stmt) : bool :=
